@@ -351,9 +351,9 @@ class LighthouseGeometrySolver:
         Rodrigues' rotation formula is used.
         """
         theta = np.linalg.norm(rot_vecs, axis=1)[:, np.newaxis]
-        with np.errstate(invalid='ignore'):
-            v = rot_vecs / theta
-            v = np.nan_to_num(v)
+        # Unit rotation axis. A zero rotation (also a rotation vector so small that its norm underflows to zero)
+        # has no axis, use the zero vector which makes the rotation the identity.
+        v = np.divide(rot_vecs, theta, out=np.zeros_like(rot_vecs, dtype=float), where=(theta != 0.0))
         dot = np.sum(points * v, axis=1)[:, np.newaxis]
         cos_theta = np.cos(theta)
         sin_theta = np.sin(theta)
